@@ -16,6 +16,14 @@
 //!      moved elsewhere; then each later site that restores a saved cursor: a symbol chosen from the backquote symbol
 //!      table (leaf, or category + leaf), another list left with Esc, a phrase chosen, another list closed by CapsLock,
 //!      `start_selecting` + `cancel_selecting`; a syllable typed in between, twice over.
+//!  (e) appended sessions (FX3): the fuzzy engine (prefix lookup) and N x the SAME initial key (N beyond the limit):
+//!      every repetition makes `fuzzy_key_press` answer `Fuzzy(previous partial syllable)`, which is inserted while the
+//!      editor stays in `EnteringSyllable` (each bare initial is first learnt as a user phrase: the harness
+//!      dictionaries are in-memory and match exact keys only); variants with another initial in between, a cursor move, a limit lowered
+//!      in mid-run.
+//!  (f) appended sessions (FX4): the simple engine and cycles "type a syllable (its one-word list opens at once),
+//!      close the list WITHOUT choosing by `cancel_selecting` (= chewing_cand_close)", more cycles than the limit;
+//!      variants closing by Esc, by a `set_editor_options` call that leaves the list alone, a Down in between.
 //! Everything is derived from the session number (reproducible, independent of VERIF_SEED).
 use crate::script_c18::base_opts;
 use crate::step::option;
@@ -30,8 +38,29 @@ fn n_old(thorough: bool) -> u64 {
     if thorough { 6000 } else { 360 }
 }
 
+fn n_d(thorough: bool) -> u64 {
+    if thorough { 3000 } else { 240 }
+}
+
+/// families (e) + (f)
+fn n_ef(thorough: bool) -> u64 {
+    if thorough { 1200 } else { 120 }
+}
+
 pub fn n_sessions(thorough: bool) -> u64 {
-    n_old(thorough) + if thorough { 3000 } else { 240 }
+    n_old(thorough) + n_d(thorough) + n_ef(thorough)
+}
+
+thread_local! {
+    /// (sessions of family (e), of family (f)) built so far
+    static BUILT: std::cell::Cell<(u64, u64)> = const { std::cell::Cell::new((0, 0)) };
+}
+
+/// `#stat` lines of this script (cumulative; printed by main.rs at the end)
+pub fn finish(out: &mut vharness::Out) {
+    let (e, f) = BUILT.with(|b| b.get());
+    out.stat("c05_script_sessions_fuzzy_engine_repeated_initial", e);
+    out.stat("c05_script_sessions_simple_engine_syllable_cancel_cycles", f);
 }
 
 /// one scripted step: an operation, or one that depends on the options in force when its turn comes
@@ -105,6 +134,15 @@ impl Script {
     pub fn new(sid: u64, thorough: bool) -> Script {
         use KeyCode::*;
         let mut rng = Rng::new(0xC05_u64.wrapping_mul(1_000_003).wrapping_add(sid));
+        if sid >= n_old(thorough) + n_d(thorough) {
+            let fuzzy = sid % 2 == 0;
+            BUILT.with(|b| {
+                let (e, f) = b.get();
+                b.set(if fuzzy { (e + 1, f) } else { (e, f + 1) });
+            });
+            let q = if fuzzy { fuzzy_repeated_initial(&mut rng) } else { simple_cancel_cycles(&mut rng) };
+            return Script { queue: q.into_iter().map(Item::Op).collect() };
+        }
         if sid >= n_old(thorough) {
             return Script { queue: list_under_mode_change(&mut rng) };
         }
@@ -337,6 +375,93 @@ fn list_under_mode_change(rng: &mut Rng) -> VecDeque<Item> {
         for k in [H, K, N4] {
             q.push_back(Item::Op(key(k)));
         }
+    }
+    q
+}
+
+/// family (e), see the module comment
+fn fuzzy_repeated_initial(rng: &mut Rng) -> VecDeque<Op> {
+    use KeyCode::*;
+    let mut q = VecDeque::new();
+    q.push_back(Op::SetLayout(0));
+    q.push_back(Op::SetEngine(2));
+    let mut o = base_opts();
+    o.conversion_engine = ConversionEngineKind::FuzzyChewingEngine;
+    o.lookup_strategy = LookupStrategy::FuzzyPartialPrefix;
+    let limit = *rng.pick(&[0u64, 1, 2, 3, 4, 6, 9, 39]);
+    o.auto_commit_threshold = limit as usize;
+    q.push_back(Op::SetOpts(o));
+    // the harness dictionaries are in-memory (exact keys also under prefix lookup): give each bare initial a word of
+    // its own, as a user phrase, so that the partial syllable `fuzzy_key_press` hands back is inserted
+    for (code, word) in [(20u16 << 9, "測"), (17 << 9, "試"), (7 << 9, "你"), (11 << 9, "好")] {
+        q.push_back(Op::Learn(vec![chewing::zhuyin::Syllable::try_from(code).unwrap()], word.to_string()));
+    }
+    let initials = [H, G, S, C];
+    let main = *rng.pick(&initials);
+    let n = limit + 3 + rng.below(6);
+    let lower_at = if limit >= 3 && rng.chance(1, 3) { Some(1 + rng.below(limit)) } else { None };
+    for i in 0..=n {
+        q.push_back(key(if rng.chance(1, 6) { *rng.pick(&initials) } else { main }));
+        if rng.chance(1, 12) {
+            q.push_back(key(*rng.pick(&[Left, Home, End])));
+        }
+        if lower_at == Some(i) {
+            let mut o2 = o;
+            o2.auto_commit_threshold = rng.below(limit - 1) as usize;
+            q.push_back(Op::SetOpts(o2));
+        }
+    }
+    // finish the pending syllable one way or another
+    match rng.below(3) {
+        0 => q.push_back(key(Space)),
+        1 => q.push_back(key(Esc)),
+        _ => q.push_back(key(N4)),
+    }
+    q
+}
+
+/// family (f), see the module comment
+fn simple_cancel_cycles(rng: &mut Rng) -> VecDeque<Op> {
+    use KeyCode::*;
+    let mut q = VecDeque::new();
+    q.push_back(Op::SetLayout(0));
+    q.push_back(Op::SetEngine(0));
+    let mut o = base_opts();
+    o.conversion_engine = ConversionEngineKind::SimpleEngine;
+    let limit = *rng.pick(&[0u64, 1, 2, 3, 4, 6, 9, 39]);
+    o.auto_commit_threshold = limit as usize;
+    q.push_back(Op::SetOpts(o));
+    let syls: [&[KeyCode]; 4] = [&[H, K, N4], &[G, N4], &[S, U, N3], &[C, L, N3]];
+    let cycles = limit + 3 + rng.below(4);
+    for _ in 0..cycles {
+        for k in *rng.pick(&syls) {
+            q.push_back(key(*k));
+        }
+        match rng.below(8) {
+            0 => q.push_back(key(Esc)),
+            1 => {
+                // an option call under the open list (revalidate_selecting leaves a non-empty list alone), then close
+                let mut o2 = o;
+                o2.auto_shift_cursor = !o.auto_shift_cursor;
+                q.push_back(Op::SetOpts(o2));
+                q.push_back(Op::CancelSel);
+            }
+            2 => {
+                q.push_back(Op::CancelSel);
+                // re-open a list over the over-full buffer and close it again
+                q.push_back(key(Down));
+                q.push_back(Op::CancelSel);
+            }
+            _ => q.push_back(Op::CancelSel),
+        }
+        if rng.chance(1, 10) {
+            q.push_back(key(*rng.pick(&[Left, Home, End])));
+        }
+    }
+    // one more key of each kind after the last closed list
+    q.push_back(Op::Key(Comma, Modifiers::shift()));
+    for k in [G, N4] {
+        q.push_back(key(k));
     }
     q
 }
